@@ -249,6 +249,13 @@ pub fn run(ctx: &mut Ctx) {
         ctx.run_prop(&SUB_MIN, move || (pooled_symbol(pool.clone()), 0usize..=3, any::<u32>()).prop_map(|(ds, k, pick)| MinCase { sheets: if ds.size <= 6 && k >= 2 { k } else { 0 }, ds, pick }), n);
     }
     ctx.run_prop(&SUB_MIN, || prop_oneof![random_symbol(2, 6..=40), random_symbol(3, 5..=40)].prop_map(|ds| MinCase { ds, sheets: 0, pick: 0 }), n / 4);
+    // large symbols: random ones (mostly minimal) and space-group quotients of the cubic / prism tilings
+    // (covers with up to thousands of chambers of a symbol with 1..3 chambers), renumbered
+    ctx.layer("large");
+    ctx.run_prop(&SUB_MIN, || prop_oneof![random_symbol(2, 100..=400), random_symbol(3, 100..=400)].prop_map(|ds| MinCase { ds, sheets: 0, pick: 0 }), t.pick(2_000, 30_000));
+    let max_n = t.pick(3usize, 4usize);
+    ctx.run_prop(&SUB_MIN, move || crate::props::c17::cubic_strategy(max_n).prop_map(|c| MinCase { ds: c.ds.renumbered(&perm_from_swaps(c.ds.size, &c.swaps)), sheets: 0, pick: 0 }), t.pick(2_000, 30_000));
+    ctx.layer("random");
     {
         // cover -> base morphisms with harness-built covers
         let pool = pool.clone();
